@@ -102,17 +102,20 @@ CLAIMS = {
          "Trusted: CPython ast; CFG; np.ndarray.copy() returns a fresh array.",
          "DESIGN.md 4/C11"),
  "C12": ("reaching definitions on every return of trsbox/alt_trust_step, shape check of d_within_bounds, loop-form lint and call-graph recursion check, "
-         "reflection equivariance of the lower/upper bound blocks (statements translated to sympy, reflected, compared as canonical forms)",
-         "Static decision of three structural clauses of the pure-Python path only: every returned step comes out of d_within_bounds (clamp + pinning + '- xopt'); the lower-bound and "
+         "reflection equivariance of the lower/upper bound blocks (statements translated to sympy, reflected, compared as canonical forms), flag-aware CFG path queries for masked work vectors, "
+         "abstract interpretation over linear forms in operator words H(.), E_k(.) with Houdini-style candidate invariants at loop heads (dfv/linrel.py; sympy normalises coefficients)",
+         "Static decision of five clauses of the pure-Python path only: every returned step comes out of d_within_bounds (clamp + pinning + '- xopt'); the lower-bound and "
          "upper-bound handling of trsbox/alt_trust_step/d_within_bounds are exact reflections of each other (x -> -x); and every loop of "
-         "the sub-problem routines is a for over a range fixed before the loop with no recursion (the routine returns for every input). Norm bound, model decrease, Cauchy decrease "
-         "and gnew = g + H d are numerical and NOT decided; the optional Fortran back end is outside the analysed source.",
-         "Trusted: CPython ast; CFG.",
-         "DESIGN.md 4/C12"),
+         "the sub-problem routines is a for over a range fixed before the loop with no recursion (the routine returns for every input); a work vector written only under the active-set mask has its "
+         "off-mask entries defined again between every change of the mask and its next whole use; and gnew - H d == g is an inductive consequence of the statements of trsbox/alt_trust_step over the reals "
+         "(every update of d is paired with H times the same increment in gnew; hred stays H times the reduced step), up to the final clipping. Norm bound, model decrease and Cauchy decrease "
+         "are numerical and NOT decided; the optional Fortran back end is outside the analysed source.",
+         "Trusted: CPython ast; CFG; real arithmetic (rounding is not modelled); d_within_bounds treated as the identity for the gradient relation (its own clause is C12-1).",
+         "DESIGN.md 4/C12, 9.5"),
  "C13": ("definition/mutation inventory of the projector list in each ctrsbox_* routine, dominator queries in Controller.trust_region_step, frame interpretation of the step routines (model_value callback frame included), loop-form lint, reflection equivariance of trsbox_linear's bound handling",
          "Static decision that the trust-region ball pball(., centre, radius) of the routine's own centre/radius is the last set handed to Dykstra over a fresh copy of the caller's "
          "list; that every regularised step passes `pred_reduction < 0 => d = 0` with pred_reduction computed from the returned (gopt, H, d); frame agreement at all arithmetic/clamp/"
-         "dykstra sites of the step routines; the geometry point is centre + an output of the box solver over the box relative to the centre; totality. Box to 1e-12, global optimality to 1e-6 and ||d|| <= Delta(1+1e-8) are numerical and NOT decided.",
+         "dykstra sites of the step routines; the geometry point is centre + an output of the box solver over the box relative to the centre, and it is the candidate with the larger |c + g.s| of one computed for +g and one for -g (both compared before either is returned); totality. Box to 1e-12, global optimality to 1e-6 and ||d|| <= Delta(1+1e-8) are numerical and NOT decided.",
          "Trusted: dykstra summary (C15-2); CPython ast.",
          "DESIGN.md 4/C13"),
  "C14": ("symbolic comparison of allocation/return shapes and a must-pass-through/last-write check of the clamp loop in both random-direction generators, "
@@ -133,17 +136,17 @@ CLAIMS = {
  "C16": ("typestate data-flow (flag may-be-true / cleared / written-while-true) over every Model method with the read-set of interpolation_matrix computed from the call graph, "
          "ownership inventory, affine normal forms for shift_base, re-basing check of live relative locals at shift_base call sites",
          "Static decision that every mutation of what the cached factorisation depends on clears factorisation_current on every path, that only factorise_geom_system validates the cache "
-         "after recomputing Q, R, that no Model field is written outside the class, that no stored array is modified in place through a local it is a view of, and that shift_base is an "
-         "affine no-op for model values and the assembled model. "
+         "after recomputing Q, R, that no Model field is written outside the class, that no stored array is modified in place through a local it is a view of, that shift_base is an "
+         "affine no-op for model values and the assembled model, and that both parts (constant, gradient) of the fitted model and of every Lagrange polynomial are rows of one solution of the interpolation system, read by the layout the design matrix is written in. "
          "Interpolation / least-squares / Lagrange identities are numerical and NOT decided.",
          "Trusted: CPython ast; CFG; np.dot(J, .) is linear.",
          "DESIGN.md 4/C16"),
  "C17": ("sibling cross-check of the per-point record across change_point/swap_points/add_new_point/add_new_sample, shape analysis of sample-count and objective stores, "
-         "complete decision tables of selection guards, bound check of every store to the incumbent index, guard check of the incumbent re-selection after re-sampling, alias query for the saved-point slot",
+         "complete decision tables of selection guards, bound check of every store to the incumbent index, guard check of the incumbent re-selection after re-sampling, alias query for the saved-point slot, rational normal form of the running-mean update (sympy.cancel)",
          "Static decision that the five per-point arrays move together under relocation/append/replace/re-sample, that sample counts are 1 on replace and +1 on re-sample, that each stored "
          "objective is sumsq(residual)[+h], that incumbent moves and the final selection have correct tables for ordering, ties, NaN and None, that kopt stays below npt(), that re-selection after a re-sample is skipped only when every value is NaN (guards and must-pass-through), that extra samples go to the slot of their point, "
-         "and that the saved record never aliases live arrays. "
-         "'stored residual is the arithmetic mean of its samples' is NOT decided.",
+         "that the saved record never aliases live arrays, and that the running-mean update of a re-sampled residual equals (n*old + new)/(n+1) as a rational function (sample-count reads phased against the increment). "
+         "Rounding error of the running mean is not decided.",
          "Trusted: CPython ast; IEEE NaN comparison semantics in the table evaluator.",
          "DESIGN.md 4/C17"),
  "C18": ("forward data-flow of the ordering fact delta >= rho with max/min/literal-factor inference rules, method summaries and validated option implications; writer inventory of rho "
